@@ -58,12 +58,5 @@ func (cc *SMPPCodec) DecodeBlocked(c ConnReader) ([]byte, error) {
 		return nil, ErrInvalidPacketLength
 	}
 
-	left := make([]byte, totalLen)
-	_, err = io.ReadFull(c, left[smpp.MinSMPPHeaderLen:])
-	if err != nil {
-		return nil, err
-	}
-	copy(left[:smpp.MinSMPPHeaderLen], totalLenBytes)
-
-	return left, nil
+	return readFrame(c, totalLenBytes, totalLen)
 }
